@@ -61,6 +61,45 @@ theorem conflict_handlers (a b : Bool) :
 theorem top_iff (v : Int) (p : Bool) : topRaises true v p = true ↔ (p = true ∧ (v < 0 ∨ 100 < v)) := by
   cases p <;> simp [topRaises] <;> omega
 
+/-- **RETURNING guard**: with the targets among the known tables (they always are), a term is rejected exactly when
+    it has fields and either the statement is not an INSERT / UPDATE / DELETE or one of its fields is on a table that is
+    neither a target, a FROM item nor a joined table -/
+theorem returning_iff (hasDml : Bool) (targets fieldTables known : List Nat) (hsub : ∀ t ∈ targets, t ∈ known) :
+    returningRaises hasDml targets fieldTables known = true ↔
+      fieldTables ≠ [] ∧ (hasDml = false ∨ ∃ t ∈ fieldTables, t ∉ known) := by
+  unfold returningRaises
+  rw [List.any_eq_true]
+  constructor
+  · rintro ⟨ft, hft, h⟩
+    refine ⟨List.ne_nil_of_mem hft, ?_⟩
+    cases hd : hasDml with
+    | false => exact Or.inl rfl
+    | true =>
+      right
+      simp only [hd, Bool.not_true, Bool.false_or, Bool.and_eq_true, List.any_eq_true, Bool.not_eq_true'] at h
+      obtain ⟨_, t, ht, hk⟩ := h
+      exact ⟨t, ht, by simpa using hk⟩
+  · rintro ⟨hne, h⟩
+    rcases h with h | ⟨t, ht, hk⟩
+    · obtain ⟨ft, hft⟩ := List.exists_mem_of_ne_nil _ hne
+      exact ⟨ft, hft, by simp [h]⟩
+    · refine ⟨t, ht, ?_⟩
+      have hnt : t ∉ targets := fun hm => hk (hsub t hm)
+      have h1 : targets.contains t = false := by simpa using hnt
+      have h2 : (fieldTables.any fun t => !known.contains t) = true := by
+        rw [List.any_eq_true]; exact ⟨t, ht, by simpa using hk⟩
+      rw [h1, h2]; simp
+
+/-- a term whose fields are all on known tables is accepted in a DML statement -/
+theorem returning_accepts_known (targets fieldTables known : List Nat) (hsub : ∀ t ∈ targets, t ∈ known)
+    (h : ∀ t ∈ fieldTables, t ∈ known) : returningRaises true targets fieldTables known = false := by
+  cases hr : returningRaises true targets fieldTables known
+  · rfl
+  · obtain ⟨_, h2⟩ := (returning_iff true targets fieldTables known hsub).mp hr
+    rcases h2 with h2 | ⟨t, ht, hk⟩
+    · cases h2
+    · exact absurd (h t ht) hk
+
 /-- **a rejected call changes nothing**: a @builder method raises on its private copy; as long as the
     effects executed before the raise are safe for that copy (no argument / nested writes), every object
     that existed is unchanged — this is `C01.builder_call_frame` applied to the prefix of effects -/
